@@ -121,6 +121,7 @@ class Compiled:
         self.status = j.get('status')
         self.err = j.get('err')
         self.msg = j.get('msg') or j.get('display')
+        self.loc = j.get('loc')
         self.funcs = {}      # name -> dict(size, inline, bank, interrupt, has_code, locals, lines)
         self.order = []
         self.calltree = {}
